@@ -128,7 +128,9 @@ reg("C01", "c01",
     "equalises all replicas. TLC then generates schedules (plus a catalogue of diverged branches of all length pairs 0..3, "
     "cross-merges, three replicas) that the harness runs on real go-git repositories sharing a bare remote, synchronises to "
     "quiescence and records; TLC validates every recorded step against the specification, including that each bug.Read returns "
-    "exactly Order(ref) and that equal orders compile to equal snapshots.",
+    "exactly Order(ref) and that equal orders compile to equal snapshots. MC_GitBugLive.tla checks the liveness clause under "
+    "fairness (after editing stops, fair pushes, fetches and merges lead to, and keep, identical replicas; a witness without fair "
+    "merges must fail). Schedules also come from a generator drawing uniformly over the action kinds.",
     GB_NOTE, "DESIGN.md section 4, C01")
 
 reg("C02", "c02",
@@ -150,7 +152,9 @@ reg("C05", "c05",
     "(increment / witness v / reload) up to the bound; each is executed on MemClock, PersistedClock, GoGitRepo and the mock "
     "repository and must give the specification's memory value, file content and returned time after every operation. Schedules "
     "with restarts are run on real repositories; TLC accepts a trace only if the memory and file values of both clocks equal the "
-    "specification's after every step.",
+    "specification's after every step. ClockInd.tla states the clock object without bounds; Apalache discharges an inductive "
+    "invariant (initial states satisfy it; one step from any state satisfying it preserves it), the step properties from every such "
+    "state, and refutes a witness whose Witness() does not reach the file.",
     GB_NOTE + " Concurrent increments inside one process belong to C18. The clock loader is the library mechanism "
     "(bug.ClockLoader); a re-opening without loaders is modelled as such and claims nothing.", "DESIGN.md section 4, C05")
 
@@ -175,7 +179,10 @@ reg("C13", "c13",
     "engineers real populations (bugs, identities, comments whose ids share 1-3 leading characters, found by grinding nonces), "
     "asks the cache to resolve every prefix length 0..64 of every id and combined id plus near-miss prefixes, and TLC accepts the "
     "trace only if every answer (entity found, multiple-match error and its id list, not-found) is the one the specification "
-    "computes on the logged population.",
+    "computes on the logged population. Populations hold 9 bugs and 8 identities (multiple-match lists longer than a handful). The "
+    "command line's resolution (commands/select: the argument first, the selected bug only when the argument matches nothing) is "
+    "exercised through the real select.Resolve for every prefix with no selection, a selected bug and a selection that no longer "
+    "exists.",
     "SHA-256 collisions ignored; the cache is built by git-bug itself from entities written through the entity API.",
     "DESIGN.md section 4, C13")
 
@@ -319,7 +326,11 @@ reg("C19", "c19",
     "git-bug binary on one repository (`webui --no-open` holders stopped by SIGINT or SIGKILL; `bug`, `bug show <unknown>` and `bug "
     "rm` without a configured identity as commands that succeed, fail in RunE, fail in the pre-run after the cache was opened) "
     "and compares exit status, the refusal message (it must name the live holder's pid) and the content of the lock file after "
-    "every step.",
+    "every step. Two more models take opening and closing apart (MC_LockOpen, MC_LockClose, each with a witness configuration "
+    "that must fail): through the local-storage hook real holders are killed or stalled at every point of taking the lock (whatever "
+    "a dead one leaves must not keep the next process out; an existing lock file is never taken from a live one), and an in-process "
+    "holder is watched through Close (every write it makes happens under its own lock; a real second process started while the "
+    "cache closes the repository inside Close must be refused).",
     "The check-then-write window inside one open is not scheduled (the code documents it as racy); main claim is about completed "
     "opens, closes and kills.", "DESIGN.md section 4, C19")
 
@@ -347,7 +358,12 @@ reg("C17", "c17",
     "checks the design against it. The harness builds the router like `git-bug webui` does, lists the Mutation type by "
     "introspection (new mutations are picked up), derives inputs from the input types, and for every mutation sends well-formed "
     "and ill-formed requests with and without the middleware, plus queries and uploads, comparing every ref, the number of git "
-    "objects and what the cache serves before and after; TLC accepts the recorded observations only if each satisfies its rule.",
+    "objects and what the cache serves before and after; TLC accepts the recorded observations only if each satisfies its rule. "
+    "Every well-formed mutation runs under three configurations of the repository's own user (the attached one, another one, none) "
+    "and with an uploaded file attached. ApiSeq.tla models the mutations as a state machine over one bug; TLC explores all sequences "
+    "of <= 4 requests and request sequences of 14-19 (TLC simulation, a fixed one, and ones drawn uniformly over the request kinds) "
+    "run against the real handlers, every step validated: refusal, the returned bug, the bug read back from git, authorship, and "
+    "whether anything persistent moved.",
     "In-process HTTP (httptest); gqlgen trusted. Expected operation counts are known for the nine current mutations; a new "
     "mutation is checked for the gate, authorship and locality.", "DESIGN.md section 4, C17")
 
